@@ -3,7 +3,7 @@
    AsyncFixedBuf::read_frame IS `drive` instantiated with the translated prefix `arf_pre`, tokio's Read future
    `poll_read_future`, and the translated suffix `arf_post`: Model/TokioAsync.v `arf_drive`). *)
 From FB Require Import Sem.Base Sem.Lemmas Sem.ReadBuf Sem.Async Model.Fb Model.TokioAsync Spec.Api
-  Facets.Fb Facets.Fb2 Facets.Rf Facets.Async.
+  Facets.Fb Facets.Fb2 Facets.Rf Facets.Async Facets.C14Blocking.
 Open Scope Z_scope.
 
 (* the tokio crate's loop is the blocking loop: the translated BLOCKING body = async prefix; blocking read into the view; async suffix *)
@@ -26,6 +26,28 @@ Theorem c14_pending_invisible : forall SIZE chk RS (A : AsyncReader RS) df, (for
   forall cancel, exists polls, forall p, (polls <= p)%nat ->
     arf_drive chk A p cancel df w = bloop (rf_pre chk df) (rf_await A) (rf_post chk) n k w.
 Proof. exact Facets.Async.c14_pending_invisible. Qed.
+
+(* the blocking side IS the translated blocking FixedBuf::read_frame: run against the std::io::Read obtained from the AsyncRead by
+   polling it until it is ready (BR A k, patience k), it computes that same loop.  `quiet`: a poll that delivers no data (Pending / Err)
+   leaves the caller's buffer as it found it *)
+Theorem c14_blocking_is_read_frame : forall SIZE chk RS (A : AsyncReader RS) df, (forall u, zlen u <= SIZE -> df_in_bounds df u) ->
+  quiet A -> forall n k w, WI SIZE w ->
+  finished (bloop (rf_pre chk df) (rf_await A) (rf_post chk) n k w) ->
+  to_out (read_frame chk (BR A k) n df w) = bloop (rf_pre chk df) (rf_await A) (rf_post chk) n k w.
+Proof. exact Facets.C14Blocking.read_frame_is_bloop. Qed.
+
+(* hence the statement of the property: the async fn, under ANY placement of Pending and ANY cancellation pattern, returns what the
+   blocking FixedBuf::read_frame returns on the same chunks, in the same buffer and reader state *)
+Theorem c14_async_equals_blocking : forall SIZE chk RS (A : AsyncReader RS) df, (forall u, zlen u <= SIZE -> df_in_bounds df u) ->
+  quiet A -> forall n k w, WI SIZE w ->
+  finished (bloop (rf_pre chk df) (rf_await A) (rf_post chk) n k w) ->
+  forall cancel, exists polls, forall p, (polls <= p)%nat ->
+    arf_drive chk A p cancel df w = to_out (read_frame chk (BR A k) n df w).
+Proof.
+  intros SIZE chk RS A df Hdf Hq n k w HI Hfin cancel.
+  destruct (Facets.Async.c14_pending_invisible SIZE chk A df Hdf n k w HI Hfin cancel) as (polls & Hp).
+  exists polls. intros p Hle. rewrite (Hp p Hle). symmetry. exact (Facets.C14Blocking.read_frame_is_bloop SIZE chk A df Hdf Hq n k w HI Hfin).
+Qed.
 
 (* a poll can suspend only in the branch where the reader's poll returned Pending in that same poll (structural: `drive` has one
    suspension point), and a Pending poll leaves every byte received so far readable: indices and unread bytes are untouched *)
@@ -51,6 +73,17 @@ Example c14_ex :
   end.
 Proof. vm_compute. reflexivity. Qed.
 
+Example c14_ex_quiet : quiet ex_reader.
+Proof. intros rs b. unfold ex_reader; cbn [prd]. destruct rs as [|[d|] t]; reflexivity. Qed.
+Example c14_ex_blocking :
+  to_out (read_frame true (BR ex_reader 5) 10 (fun d => match d with [97; 98; 10] => DFrame 0 2 3 | _ => DNone end)
+            (new 8, [None; Some [97]; None; None; Some [98; 10]]))
+  = arf_drive true ex_reader 10 [] (fun d => match d with [97; 98; 10] => DFrame 0 2 3 | _ => DNone end)
+            (new 8, [None; Some [97]; None; None; Some [98; 10]]).
+Proof. vm_compute. reflexivity. Qed.
+
 Print Assumptions c14_same_loop.
 Print Assumptions c14_pending_invisible.
 Print Assumptions c14_pending_keeps_bytes.
+Print Assumptions c14_blocking_is_read_frame.
+Print Assumptions c14_async_equals_blocking.
